@@ -2,12 +2,13 @@
 from vlib import core
 from checks import mergegen as g
 from checks import mergelib as m
+from checks import mergemech
 
 META = {
     "harness_bins": ["nkeval"],
     "extract": "C05.v",
     "technique": "Coq proof of commutativity/associativity/unit/idempotence of the data-merge algebra (priorities, optional/not_exported, contracts, nested records, variants, arrays, pending conflicts) for all well-formed trees; algebra tied to merge.rs by differential evaluation (extracted model vs interpreter) and the laws re-checked directly on the interpreter",
-    "level_text": "coq/Props/C05.v: for ALL well-formed data trees (any depth/width) merge is closed, commutative, associative, idempotent and has {} as unit, as equalities of denotations, hence of exports (C05_export_*). The algebra (coq/Merge/Algebra.v) is a hand-written reading of merge.rs/merge_fields/MergePriority/iter_serializable; it is tied to the code by running every generated merge expression through the extracted model and through the real interpreter (harness nkeval) and comparing exported trees / error kinds, and each law is also evaluated directly on the interpreter (both operand orders, both bracketings, a & {}, a & a). PARTIAL: recursive fields referring to siblings are outside the algebra; for them the laws are only checked on the interpreter (direct oracle), not proved.",
+    "level_text": "coq/Props/C05.v: for ALL well-formed data trees (any depth/width) merge is closed, commutative, associative, idempotent and has {} as unit, as equalities of denotations, hence of exports (C05_export_*). The algebra (coq/Merge/Algebra.v) is a hand-written reading of merge.rs/merge_fields/MergePriority/iter_serializable; it is tied to the code by running every generated merge expression through the extracted model and through the real interpreter (harness nkeval) and comparing exported trees / error kinds, and each law is also evaluated directly on the interpreter (both operand orders, both bracketings, a & {}, a & a). PARTIAL: recursive fields referring to siblings are outside the algebra; for them the laws are only checked on the interpreter (direct oracle), not proved. " + mergemech.MECH_TEXT_C05,
     "level_note": "Trusted: Coq kernel; extraction (ExtrOcamlBasic); the algebra's reading of the code (validated by correspondence only); generator/printer in checks/mergegen.py; contracts are modelled as predicates on exported data (validating contracts only). The well-formedness hypothesis of the theorems (sorted keys, canonical priorities, plain data inside arrays) is checked by the extracted `wf` on every generated case.",
 }
 
@@ -77,11 +78,18 @@ def run(ck):
     ck.coverage["partial"] = "recursive sibling references are not in the algebra (laws checked on the interpreter only, see C07)"
     ck.trusted += ["extraction: ExtrOcamlBasic only", "harness bin nkeval (canonical outcome printer)", "generator checks/mergegen.py"]
     ck.assumptions += ["validating contracts are predicates on the exported value"]
+    mergemech.run(ck, "C05")      # mechanism level: Props.C05_mech + map-order tie (checks/mergemech.py)
+
+
+def setup():
+    return mergemech.setup()
 
 
 def replay(ck, path):
     import json
     obj = json.load(open(path))
+    if obj.get("mech"):
+        return mergemech.replay(ck, obj)
     if not ck.harness(["nkeval"]):
         return
     lines = []
